@@ -224,6 +224,32 @@ func c20Drive(args []string) int {
 		res, err := v21.JavaScript(nil, "JSON.stringify(v)", "v", a.v)
 		calls = append(calls, M{"ev": "value", "tr": 1000 + len(calls), "kind": "argument", "script": fmt.Sprint(a.v), "expected": a.want, "got": fmt.Sprint(res, errStr(err))})
 	}
+	// ... also on the way through a schema: typed declarations as named arguments (zero values are values, not "absent")
+	argSchema := `{"parser_settings": {"version": "omni.2.1", "file_format_type": "json"},
+ "transform_declarations": {"FINAL_OUTPUT": {"xpath": "/*", "object": {
+   "plain": {"custom_func": {"name": "javascript", "args": [{"const": "JSON.stringify([i, f, b, s])"},
+      {"const": "i"}, {"xpath": "i", "type": "int"}, {"const": "f"}, {"xpath": "f", "type": "float"},
+      {"const": "b"}, {"xpath": "b", "type": "boolean"}, {"const": "s"}, {"xpath": "s"}]}},
+   "ctx": {"custom_func": {"name": "javascript_with_context", "args": [{"const": "typeof i + ':' + i + ',' + typeof b + ':' + b + ',' + (i === 0) + ',' + (f === 0)"},
+      {"const": "i"}, {"xpath": "i", "type": "int"}, {"const": "f"}, {"xpath": "f", "type": "float"}, {"const": "b"}, {"xpath": "b", "type": "boolean"}]}}}}}}`
+	if sch, e, p := newSchema([]byte(argSchema)); e != nil || p != "" {
+		fmt.Println("error: c20 argument schema rejected", e, p)
+		return 3
+	} else {
+		in := `[{"i": "7", "f": "2.50", "b": "true", "s": "x"}, {"i": "0", "f": "0.0", "b": "false", "s": "y"}, {"i": "-1", "f": "0", "b": "false", "s": "é"}]`
+		wantPlain := []string{`[7,2.5,true,"x"]`, `[0,0,false,"y"]`, `[-1,0,false,"é"]`}
+		wantCtx := []string{"number:7,boolean:true,false,false", "number:0,boolean:false,true,true", "number:-1,boolean:false,false,true"}
+		out := runTranscript(sch, strings.NewReader(in), RunOpts{MaxReads: 6})
+		for k := range wantPlain {
+			got := "missing"
+			if k < len(out.Results) {
+				got = out.Results[k].Class + " " + out.Results[k].Out + out.Results[k].Err
+			}
+			wb, _ := json.Marshal(M{"ctx": wantCtx[k], "plain": wantPlain[k]})
+			calls = append(calls, M{"ev": "value", "tr": 1000 + len(calls), "kind": "argument", "script": fmt.Sprintf("through a schema, record %d", k+1), "expected": "ok " + string(wb), "got": got})
+			sum.eval(true, M{"schema-arg": k})
+		}
+	}
 	var events []interface{}
 	events = append(events, rec.events...)
 	events = append(events, calls...)
